@@ -79,7 +79,7 @@ Proof.
   intros Hi H2 Ha Hq Hm Hs. destruct (R5 _ H2 m Hm Hs) as (a & b).
   destruct (Nat.eq_dec (own (nd s m)) p) as [e|ne]; auto. exfalso.
   apply (PU _ Hi _ _ ne); try assumption; try congruence.
-  unfold active. destruct b as [b|b]; rewrite b; reflexivity.
+  unfold active. destruct b as [b|[b|b]]; rewrite b; reflexivity.
 Qed.
 
 Lemma inv2_producer s p s' : Inv s -> Inv2 s -> (step s (Push p) = Some s' \/ step s (PStep p) = Some s') -> Inv2 s'.
@@ -90,7 +90,7 @@ Proof.
     constructor; unfold in_remove; cbn; auto.
     + apply (R1 _ H2).
     + intros m Hm Hs. destruct (R5 _ H2 m Hm Hs) as (a & b).
-      rewrite upd_neq; [auto|]. intro E. rewrite E in b. destruct b; congruence.
+      rewrite upd_neq; [auto|]. intro E. rewrite E in b. destruct b as [b|[b|b]]; congruence.
   - (* Q0 *)
     assert (Un : nd s (nn s) = unalloc) by (apply (G4 _ Hi); lia).
     constructor; unfold in_remove; cbn; auto.
@@ -100,7 +100,7 @@ Proof.
     + intros m Hm. destruct (Nat.eq_dec m (nn s)) as [->|ne].
       * rewrite upd_eq. cbn. rewrite upd_eq. cbn. auto.
       * rewrite (upd_neq (nodes s)) by assumption. intros Hs. destruct (R5 _ H2 m ltac:(lia) Hs) as (a & b).
-        rewrite upd_neq; [auto|]. intro E. rewrite E in b. destruct b; congruence.
+        rewrite upd_neq; [auto|]. intro E. rewrite E in b. destruct b as [b|[b|b]]; congruence.
   - (* Q1 *)
     pfacts Hi p. destruct (Hp8 ltac:(lia)) as (Hn1 & Hn2 & Hn3 & Hn4).
     constructor; unfold in_remove; cbn.
@@ -112,11 +112,20 @@ Proof.
       * rewrite (upd_neq (nodes s)) by assumption. intros Hs. destruct (R5 _ H2 m Hm Hs) as (a & b).
         rewrite upd_neq; [auto|]. intro E. rewrite E in a. congruence.
     + rewrite rm. live_tac H2 Hi. reflexivity.
-  - (* Q2 *)
+  - (* Q2: the read of the consumer position *)
+    pfacts Hi p. cbn in Hp4. destruct (Hp8 ltac:(lia)) as (Hn1 & Hn2 & Hn3 & Hn4).
+    constructor; unfold in_remove; cbn; auto.
+    + apply (R1 _ H2).
+    + intros m Hm Hs. destruct (R5 _ H2 m Hm Hs) as (a & b).
+      destruct (Nat.eq_dec (own (nd s m)) p) as [e|ne].
+      * rewrite e in *. rewrite upd_eq. cbn. auto.
+      * rewrite upd_neq by assumption. auto.
+    + rewrite rm. live_tac H2 Hi. reflexivity.
+  - (* Q3: the store; the handle is returned *)
     pfacts Hi p. cbn in Hp4. destruct (Hp8 ltac:(lia)) as (Hn1 & Hn2 & Hn3 & Hn4).
     constructor; unfold in_remove; cbn.
     + intros m Hm. upd_tac; cbn; apply (R1 _ H2); lia.
-    + split; [upd_tac; cbn; try congruence; auto | intros m Hm1 Hm2; upd_tac; cbn; try subst m; try congruence; try (apply r3b; auto)].
+    + split; [upd_tac; cbn; try congruence; auto | intros m Hm1 Hm2; upd_tac; cbn; try subst m; try congruence; try discriminate; try (apply r3b; auto)].
     + intros Hk. apply r4 in Hk. upd_tac; cbn; congruence.
     + intros m Hm. destruct (Nat.eq_dec m (qn (P s p))) as [->|ne]; [rewrite upd_eq; cbn; lia|].
       rewrite (upd_neq _ (qn (P s p))) by assumption.
@@ -127,20 +136,6 @@ Proof.
       intros Hs. destruct (R5 _ H2 m Hm Hs) as (a & b).
       rewrite upd_neq; [auto|]. intro E. rewrite E in a. congruence.
     + rewrite rm. live_tac H2 Hi. reflexivity.
-  - (* Q3 *)
-    pfacts Hi p. cbn in Hp4.
-    constructor; unfold in_remove; cbn.
-    + intros m Hm. upd_tac; cbn; apply (R1 _ H2); lia.
-    + split; [upd_tac; cbn; try congruence; auto | intros m Hm1 Hm2; upd_tac; cbn; try subst m; try congruence; try discriminate; try (apply r3b; auto)].
-    + intros Hk. apply r4 in Hk. upd_tac; cbn; congruence.
-    + intros m Hm.
-      assert (Hst : stage (upd (nodes s) (qn (P s p)) (w_ret true (nd s (qn (P s p)))) m) = stage (nd s m) /\
-                    own (upd (nodes s) (qn (P s p)) (w_ret true (nd s (qn (P s p)))) m) = own (nd s m))
-        by (upd_tac; cbn; auto).
-      destruct Hst as (e1 & e2). rewrite e1, e2.
-      intros Hs. destruct (R5 _ H2 m Hm Hs) as (a & b).
-      rewrite upd_neq; [auto|]. intro E. rewrite E in b. destruct b; congruence.
-    + exact rm.
 Qed.
 
 Lemma inv2_step s a s' : Inv s -> Inv2 s -> step s a = Some s' -> Inv2 s'.
